@@ -22,6 +22,10 @@ from mutants import MUTANTS  # noqa: E402
 
 
 def apply_mutant(root, m):
+    if "edits" in m:
+        for e in m["edits"]:
+            apply_mutant(root, dict(e, id=m["id"], file=e.get("file", m.get("file"))))
+        return
     path = os.path.join(root, m["file"])
     src = open(path).read()
     if m.get("regex"):
